@@ -211,6 +211,10 @@ static void ep_map_swift_impl(ep_t p, const uint8_t *random, size_t len) {
 	fp_null(d[1]);
 	fp_null(d[2]);
 
+	for (size_t i = 0; i < 8; i++) {
+		fp_null(h[i]);
+	}
+
 	RLC_TRY {
 		bn_new(k);
 		fp_new(v);
@@ -225,7 +229,6 @@ static void ep_map_swift_impl(ep_t p, const uint8_t *random, size_t len) {
 		fp_new(d[1]);
 		fp_new(d[2]);
 		for (size_t i = 0; i < 8; i++) {
-			fp_null(h[i]);
 			fp_new(h[i]);
 		}
 
@@ -523,6 +526,9 @@ void ep_map_swift(ep_t p, const uint8_t *msg, size_t len) {
 	}
 
 	RLC_TRY {
+		if (r == NULL) {
+			RLC_THROW(ERR_NO_MEMORY);
+		}
 		md_xmd(r, 2*elm + 1, msg, len, (const uint8_t *)RLC_DSTAG,
 				sizeof(RLC_DSTAG));
 
